@@ -13,7 +13,7 @@ from streamflow.deployment.filter import MatchingBindingFilter
 
 DEPS = ["d0", "d1", "d2", "d3"]
 SERVICES = [None, "s1", "s2"]
-PORTS = {"p": ["a", "b"], "q": ["x", "y", 7]}
+PORTS = {"p": ["a", "b", " a", "a ", "a\n"], "q": ["x", "y", 7, "\tx", "7 "]}  # (values that differ only by blanks at the edges are different values)
 
 
 def mk_job(vals):
